@@ -1995,10 +1995,12 @@ fn parse_tuple_type_hint(
             tokens.pop();
         }
 
-        assert!(
-            tokens.idx > start_idx,
-            "The parser should always make forward progress."
-        );
+        if tokens.idx <= start_idx {
+            // We can end up where we started at the end of the file,
+            // e.g. `struct{(`, because parsing the missing type name
+            // un-pops a token. The errors have already been reported.
+            break;
+        }
     }
 
     let close_paren = require_token(tokens, diagnostics, ")");
